@@ -19,7 +19,7 @@ HARNESSES = [
          files=[("pkg/opdb/sqlite/zz_verif_c12_sq_test.go", _F + "c12_sqlite_test.go")]),
 ]
 # repaired = /repo HEAD; no C12 finding is open, so a regression to any old defect is a VIOLATION
-VARIANTS = ["repaired", "d_giveup"]
+VARIANTS = ["repaired"]
 MODEL_NEEDS_IMPL = True
 RULE = ("one case = one whole history over <=6 sessions on a fresh component with a scheduler-controlled opdb fake: "
         "new (bring-up with allocator answers; pool/static/no address per family, bound/released-v4/approved/created flags "
@@ -290,12 +290,12 @@ def _sq_cases(rng, n):
 
 def gen_cases(rng, tier, budget):
     cases = _ow_cases(rng, 150 if tier == "quick" else 1500) + _sq_cases(rng, 12 if tier == "quick" else 150)
-    cases.append("race %d" % (25000 if tier == "quick" else 400000))
+    cases.append("race %d" % (15000 if tier == "quick" else 400000))
     for proto in ("ipoe", "pppoe"):
         for h in _structured(proto):
             for cfg in ("4 4 1", "2 2 1"):
                 cases.append("%s %s %s" % (proto, cfg, " ".join(h)))
-    n = budget or (900 if tier == "quick" else 12000)
+    n = budget or (600 if tier == "quick" else 12000)
     for k in range(n):
         proto = "ipoe" if k % 2 == 0 else "pppoe"
         n4, n6, kpd = rng.choice([2, 3, 4, 6]), rng.choice([2, 3, 4]), rng.choice([1, 2])
@@ -418,9 +418,7 @@ def classify(case, impl, model):
 
 
 def signature(case, impl, models):
-    if impl == models.get("d_giveup") and "giveup gaveup" in impl:
-        return "delete-retry-gives-up/%s" % route(case)
-    return None
+    return None          # no open finding
 
 
 def nontrivial(case, impl):
